@@ -185,38 +185,58 @@ def firstSome {β : Type} : Option β → Option β → Option β
   | none, b => b
 
 /-- an operator together with the failures its expression evaluation parks
-    (`Params::record_failure`) and the `take_failure` of the guard that wraps it
-    (runtime_limits.rs RuntimeGuardIter::next: `let item = self.inner.next(); take_failure()?`):
+    (`Params::record_failure`) and the `take_failure` of the runtime guards
+    (runtime_limits.rs RuntimeGuardIter::next: `let item = self.inner.next(); take_failure()?`).
     `parks st x` = processing the input item `x` parks a failure, `flushParks st` = the work done
-    once the input is exhausted parks one.  A parked failure is pending until the operator's
-    `next()` returns: the item it returns is replaced by the error; if it returns `None` the error is
-    reported in its place (`dropAtEnd` = the guard skips that check on the exhausting pull). -/
+    once the input is exhausted parks one.  The parked failure is taken by the FIRST guard whose
+    wrapped `next()` returns afterwards:
+    * the operator's own guard, if the operator returns an item for this input item: that item is
+      replaced by the error;
+    * otherwise the guard of the operator's INPUT, on the next pull: the operator receives the error
+      in place of the next input item (state `some e`: the next step processes `.error e`), also in
+      place of the final `None` — unless that guard skips the check on the exhausting pull
+      (`dropAtEnd`), in which case only an item of the final work can still be replaced. -/
 def parkT {σ ε ρ : Type} (t : Trans σ ε ρ) (parks : σ → Except ε ρ → Option ε)
     (flushParks : σ → Option ε) (dropAtEnd : Bool) : Trans (σ × Option ε) ε ρ where
   done s := t.done s.1
   step s x :=
-    match firstSome s.2 (parks s.1 x) with
-    | none => (((t.step s.1 x).1, none), (t.step s.1 x).2)
-    | some e =>
-      match (t.step s.1 x).2 with
-      | [] => (((t.step s.1 x).1, some e), [])
-      | _ :: rest => (((t.step s.1 x).1, none), .error e :: rest)
+    match s.2 with
+    | some e => (((t.step s.1 (.error e)).1, none), (t.step s.1 (.error e)).2)
+    | none =>
+      match parks s.1 x with
+      | none => (((t.step s.1 x).1, none), (t.step s.1 x).2)
+      | some e =>
+        match (t.step s.1 x).2 with
+        | [] => (((t.step s.1 x).1, some e), [])
+        | _ :: rest => (((t.step s.1 x).1, none), .error e :: rest)
   flush s :=
-    match firstSome s.2 (flushParks s.1) with
-    | none => t.flush s.1
+    match s.2 with
     | some e =>
-      match t.flush s.1 with
-      | [] => if dropAtEnd then [] else [.error e]
-      | _ :: rest => .error e :: rest
+      if dropAtEnd then
+        (match t.flush s.1 with
+         | [] => []
+         | _ :: rest => .error e :: rest)
+      else (t.step s.1 (.error e)).2 ++ t.flush (t.step s.1 (.error e)).1
+    | none =>
+      match flushParks s.1 with
+      | none => t.flush s.1
+      | some e =>
+        match t.flush s.1 with
+        | [] => if dropAtEnd then [] else [.error e]
+        | _ :: rest => .error e :: rest
 
-/-- the failures parked among the input items pulled (and the final work done) to answer `d` calls -/
+/-- the failure parked (if any) among the input items pulled — and the final work done — to answer
+    `d` calls; after the first one the error is on its way up and nothing else is processed -/
 def parkEvents {σ ε ρ : Type} (t : Trans σ ε ρ) (parks : σ → Except ε ρ → Option ε)
     (flushParks : σ → Option ε) : σ → Stream ε ρ → Nat → List ε
   | st, [], d => if d = 0 ∨ t.done st = true then [] else (flushParks st).toList
   | st, x :: xs, d =>
     if d = 0 ∨ t.done st = true then []
-    else (parks st x).toList ++
-      (if d ≤ (t.step st x).2.length then [] else parkEvents t parks flushParks (t.step st x).1 xs (d - (t.step st x).2.length))
+    else match parks st x with
+      | some e => [e]
+      | none =>
+        if d ≤ (t.step st x).2.length then []
+        else parkEvents t parks flushParks (t.step st x).1 xs (d - (t.step st x).2.length)
 
 section ops
 variable {χ ρ ν ε κ α : Type} [DecidableEq κ]
